@@ -54,8 +54,10 @@ RUNNER = textwrap.dedent('''
     second = spec.get("second")   # another hook in the same process, for other modules, with its own typechecker
     if second and second.get("first"):
         hook2 = jaxtyping.install_import_hook([prefix + m for m in second["mods"]], second["checker"])
+    # "LOCAL": a typechecker that lives in the project itself, in a module that imports other project modules
+    checker = (prefix + "spy.check") if spec["checker"] == "LOCAL" else spec["checker"]
     if spec["hooked"] or spec.get("broken"):
-        hook = jaxtyping.install_import_hook([prefix + m for m in spec["hooked"]] + ([prefix + "broken"] if spec.get("broken") else []), spec["checker"])
+        hook = jaxtyping.install_import_hook([prefix + m for m in spec["hooked"]] + ([prefix + "broken"] if spec.get("broken") else []), checker)
     if second and not second.get("first"):
         hook2 = jaxtyping.install_import_hook([prefix + m for m in second["mods"]], second["checker"])
     if spec.get("broken"):
@@ -86,13 +88,14 @@ RUNNER = textwrap.dedent('''
     if hook: hook.uninstall()
     if hook2: hook2.uninstall()
     out = {}
-    spies = {n: sys.modules.get(n) for n in ("spy_a", "spy_b")}
+    spies = {n: sys.modules.get(n) for n in ("spy_a", "spy_b", prefix + "spy")}
     for m in ("a", "b", "c", "d"):
         mod = sys.modules.get(prefix + m)
         if mod is None: continue
         who = [n for n, s in spies.items() if s is not None and (prefix + m) in s.SEEN]
         wrapped = hasattr(mod.f, "__wrapped__")
-        out[m] = {"version": mod.f(0), "instr": (who[0] + ".check" if who else ("none" if wrapped else None)), "wrapped": wrapped, "who": who}
+        who = ["LOCAL" if n == prefix + "spy" else n + ".check" for n in who]
+        out[m] = {"version": mod.f(0), "instr": (who[0] if who else ("none" if wrapped else None)), "wrapped": wrapped, "who": who}
     print("RESULT " + json.dumps(out))
 ''')
 
@@ -108,6 +111,10 @@ def write_sources(root, prefix, versions, mtimes=None):
         os.utime(path, (t, t))
     with open(os.path.join(root, prefix + "broken.py"), "w") as fh:
         fh.write("def f(x: int) -> int:\n    return (x\n")
+    # the project's own typechecker module: importing it imports module c (after `check` is defined, so that c may itself
+    # be decorated with it)
+    with open(os.path.join(root, prefix + "spy.py"), "w") as fh:
+        fh.write(SPY + f"import {prefix}c\n")
 
 
 def run_history(root, prefix, history):
@@ -151,14 +158,22 @@ def loads_of(run):
 
     loads = []
     seen = set()
-    for m in run["order"]:
+    state = {"spy": False}
+
+    def load(m, inside):
         if m in seen:
-            continue
+            return
         seen.add(m)
-        loads.append({"name": m, "hooked": key(m), "inside": None})
-        if m == "a" and "b" not in seen:
-            seen.add("b")
-            loads.append({"name": "b", "hooked": key("b"), "inside": key("a")})
+        loads.append({"name": m, "hooked": key(m), "inside": inside})
+        if m == "a":
+            load("b", key("a"))          # `import b` is a's first statement
+        # m's decorator runs now and resolves the typechecker string: the project's own typechecker module imports c
+        if run["checker"] == "LOCAL" and m in run["hooked"] and not state["spy"]:
+            state["spy"] = True
+            load("c", key(m))
+
+    for m in run["order"]:
+        load(m, None)
     return loads
 
 
@@ -195,6 +210,10 @@ FIXED = [
     # room): whatever that run ends up executing, the next run gets what its own configuration calls for
     [{"hooked": ["d"], "checker": "spy_a.check", "order": ["d"], "deep": True}, {"hooked": ["d"], "checker": "spy_a.check", "order": ["d"]},
      {"hooked": [], "checker": None, "order": ["d"]}],
+    # the typechecker lives in a project module that imports c: run 1 hooks a only (c is imported on the way to the
+    # typechecker), run 2 hooks c as well; and the converse
+    [{"hooked": ["a"], "checker": "LOCAL", "order": ["a"]}, {"hooked": ["a", "c"], "checker": "LOCAL", "order": ["a"]}, {"hooked": ["c"], "checker": "LOCAL", "order": ["c", "a"]}],
+    [{"hooked": ["b", "c"], "checker": "LOCAL", "order": ["a"]}, {"hooked": ["b"], "checker": "LOCAL", "order": ["a", "c"]}, {"hooked": [], "checker": None, "order": ["c"]}],
     # None checker then a real spy
     [{"hooked": ["a", "b", "c"], "checker": None, "order": ["c", "a"]}, {"hooked": ["a", "b", "c"], "checker": "spy_a.check", "order": ["a", "c"]}],
 ]
@@ -205,7 +224,7 @@ def gen_history(rng):
     for _ in range(rng.rng(2, 4)):
         hooked = [m for m in "abc" if rng.chance(1, 2)]
         order = rng.shuffle([m for m in "abc" if rng.chance(2, 3)]) or ["a"]
-        run = {"hooked": hooked, "checker": rng.choice(["spy_a.check", "spy_b.check", None]), "order": order}
+        run = {"hooked": hooked, "checker": rng.choice(["spy_a.check", "spy_b.check", None, "LOCAL"]), "order": order}
         if rng.chance(1, 4):
             run["edit"] = rng.choice(["a", "b", "c"])
         elif rng.chance(1, 5):
